@@ -38,7 +38,8 @@ type ReqSpec struct {
 	ReqPauseAt  int `json:"req_pause_at"`  // requestor's incoming-block hook pauses the request at its n-th block (0 = never)
 	RespPauseAt int `json:"resp_pause_at"` // responder's outgoing-block hook pauses the response at block index n
 	RespGateAt  int `json:"resp_gate_at"`  // the responder's n-th storage read for this request blocks until an "sgate" op
-	ReqGateAt   int `json:"req_gate_at"`   // the requestor's n-th storage read for this request blocks until a "qgate" op
+	ReqGateAt   int `json:"req_gate_at"`   // the requestor's executor for this request stalls in its block hook after the n-th block until a "qgate" op
+	ReqWGateAt  int `json:"req_wgate_at"`  // a second stall point of the same kind
 	Prio        int `json:"prio"`
 	DedupKey    int `json:"dedup_key"` // 0 = none, else dedup-by-key "k<n>" and an own requestor store
 }
@@ -112,6 +113,11 @@ type Result struct {
 	// RerequestWhileActive[i]: a re-sent New request for i (same id, after a requestor pause) was
 	// delivered while the responder still had the earlier response's task active
 	RerequestWhileActive map[int]bool
+	// CrossDedup[i]: a response for i listed a link as present without its bytes although the bytes had
+	// only ever been transmitted for another request (the responder's cross-request de-duplication)
+	CrossDedup map[int]bool
+	// AtRisk[i]: ... and when that message was delivered the requestor's store for i did not hold the block yet
+	AtRisk map[int]bool
 }
 
 // Roots resolves a request's root cid.
@@ -179,7 +185,7 @@ func (o *ReqOutcome) Key() string {
 }
 
 func RunWith(t *testing.T, c Case, st *Stores) *Result {
-	res := &Result{RerequestWhileActive: map[int]bool{}, Labels: map[string]bool{}, KeyStores: map[int]map[cid.Cid][]byte{}}
+	res := &Result{CrossDedup: map[int]bool{}, AtRisk: map[int]bool{}, RerequestWhileActive: map[int]bool{}, Labels: map[string]bool{}, KeyStores: map[int]map[cid.Cid][]byte{}}
 	if !c.Sel.WellFormed() {
 		res.Skip = true
 		return res
@@ -216,21 +222,21 @@ func RunWith(t *testing.T, c Case, st *Stores) *Result {
 		}
 		qs := sim.NewStore(reqStore, true)
 		ss := sim.NewStore(respStore, true)
+		qgates, sgates, wgates := make([]*gate, len(c.Reqs)), make([]*gate, len(c.Reqs)), make([]*gate, len(c.Reqs))
+		for i, r := range c.Reqs {
+			qgates[i], sgates[i], wgates[i] = newGate(r.ReqGateAt), newGate(r.RespGateAt), newGate(r.ReqWGateAt)
+		}
 		rq := w.AddInstance(scen.ReqID, qs, qopts...)
 		rs := w.AddInstance(scen.RespID, ss, sopts...)
 		keyStores := map[int]*sim.Store{}
-		qgates, sgates := make([]*gate, len(c.Reqs)), make([]*gate, len(c.Reqs))
 		for i, r := range c.Reqs {
-			qgates[i], sgates[i] = newGate(r.ReqGateAt), newGate(r.RespGateAt)
-			st := qs
-			if r.DedupKey > 0 {
-				if keyStores[r.DedupKey] == nil {
-					keyStores[r.DedupKey] = sim.NewStore(reqStore, true)
+			if r.DedupKey > 0 && keyStores[r.DedupKey] == nil {
+				// requests with a dedup key use an own store, selected as a persistence option (which is what
+				// makes the requestor add the dedup-by-key extension)
+				keyStores[r.DedupKey] = sim.NewStore(reqStore, true)
+				if err := rq.GS.RegisterPersistenceOption(fmt.Sprintf("k%d", r.DedupKey), keyStores[r.DedupKey].LinkSystem()); err != nil {
+					panic(err)
 				}
-				st = keyStores[r.DedupKey]
-			}
-			if err := rq.GS.RegisterPersistenceOption(fmt.Sprintf("q%d", i), gated(st.LinkSystem(), qgates[i])); err != nil {
-				panic(err)
 			}
 			if err := rs.GS.RegisterPersistenceOption(fmt.Sprintf("s%d", i), gated(ss.LinkSystem(), sgates[i])); err != nil {
 				panic(err)
@@ -271,7 +277,9 @@ func RunWith(t *testing.T, c Case, st *Stores) *Result {
 			if i, ok := idxOf(rd); ok {
 				setID(rd.ID(), i)
 				res.Reqs[i].ID, res.Reqs[i].HasID = rd.ID(), true
-				ha.UsePersistenceOption(fmt.Sprintf("q%d", i))
+				if k := c.Reqs[i].DedupKey; k > 0 {
+					ha.UsePersistenceOption(fmt.Sprintf("k%d", k))
+				}
 			}
 		})
 		rq.GS.RegisterOutgoingRequestProcessingListener(func(p peer.ID, rd graphsync.RequestData, n int) {
@@ -291,6 +299,16 @@ func RunWith(t *testing.T, c Case, st *Stores) *Result {
 			blocksSeen[i]++
 			n := blocksSeen[i]
 			mu.Unlock()
+			// the requestor's gates hold this request's executor inside its block hook: block n is stored,
+			// nothing after it is loaded until the gate opens (a slow consumer)
+			if c.Reqs[i].ReqGateAt > 0 && n == c.Reqs[i].ReqGateAt {
+				qgates[i].at, qgates[i].n = 1, 0
+				qgates[i].pass()
+			}
+			if c.Reqs[i].ReqWGateAt > 0 && n == c.Reqs[i].ReqWGateAt {
+				wgates[i].at, wgates[i].n = 1, 0
+				wgates[i].pass()
+			}
 			if c.Reqs[i].ReqPauseAt > 0 && n == c.Reqs[i].ReqPauseAt {
 				logf("req-hook-pause", i, fmt.Sprintf("at block %d", n))
 				ha.PauseRequest()
@@ -349,8 +367,60 @@ func RunWith(t *testing.T, c Case, st *Stores) *Result {
 				}
 			}
 		}
+		sentFor := map[cid.Cid]map[int]bool{} // block bytes transmitted in a message that lists it for request i
+		storeOf := func(i int) *sim.Store {
+			if k := c.Reqs[i].DedupKey; k > 0 {
+				return keyStores[k]
+			}
+			return qs
+		}
+		checkDedup := func(e *sim.Envelope) {
+			if e.From != scen.RespID {
+				return
+			}
+			inMsg := map[cid.Cid]bool{}
+			for _, b := range e.Msg.Blocks() {
+				inMsg[b.Cid()] = true
+			}
+			type ent struct {
+				i int
+				c cid.Cid
+			}
+			var listed []ent
+			for _, r := range e.Msg.Responses() {
+				i, ok := getID(r.RequestID())
+				if !ok {
+					continue
+				}
+				r.Metadata().Iterate(func(c cid.Cid, a graphsync.LinkAction) {
+					if a == graphsync.LinkActionPresent {
+						listed = append(listed, ent{i, c})
+					}
+				})
+			}
+			for _, l := range listed {
+				if inMsg[l.c] {
+					continue
+				}
+				if m := sentFor[l.c]; len(m) > 0 && !m[l.i] {
+					res.CrossDedup[l.i] = true
+					if !storeOf(l.i).Has(l.c) {
+						res.AtRisk[l.i] = true
+					}
+				}
+			}
+			for _, l := range listed {
+				if inMsg[l.c] {
+					if sentFor[l.c] == nil {
+						sentFor[l.c] = map[int]bool{}
+					}
+					sentFor[l.c][l.i] = true
+				}
+			}
+		}
 		w.OnDeliver = func(e *sim.Envelope) {
 			checkRerequest(e)
+			checkDedup(e)
 			noteWire()
 			mu.Lock()
 			res.Events = append(res.Events, Event{K: "deliver", Seq: e.Seq, From: string(e.From)})
@@ -431,9 +501,6 @@ func RunWith(t *testing.T, c Case, st *Stores) *Result {
 				return
 			}
 			exts := []graphsync.ExtensionData{{Name: extIndex, Data: basicnode.NewInt(int64(i))}}
-			if k := c.Reqs[i].DedupKey; k > 0 {
-				exts = append(exts, graphsync.ExtensionData{Name: graphsync.ExtensionDeDupByKey, Data: basicnode.NewString(fmt.Sprintf("k%d", k))})
-			}
 			results[i] = w.Request(rq, scen.RespID, cidlink.Link{Cid: RootOf(b, c.Reqs[i].Root)}, sel, exts...)
 			res.Reqs[i].Started = true
 		}
@@ -451,6 +518,7 @@ func RunWith(t *testing.T, c Case, st *Stores) *Result {
 				l := pl[op.N%len(pl)]
 				if pe := w.Net.Peek(l[0], l[1]); pe != nil {
 					checkRerequest(pe)
+					checkDedup(pe)
 				}
 				e := w.Net.Deliver(l[0], l[1])
 				desc = fmt.Sprintf("deliver(#%d %s)", e.Seq, map[bool]string{true: "Q->S", false: "S->Q"}[l[0] == scen.ReqID])
@@ -480,6 +548,7 @@ func RunWith(t *testing.T, c Case, st *Stores) *Result {
 				sgates[i].release()
 			case "qgate":
 				qgates[i].release()
+				wgates[i].release()
 			case "tick":
 				w.Wait()
 				time.Sleep(150 * time.Millisecond)
@@ -495,6 +564,7 @@ func RunWith(t *testing.T, c Case, st *Stores) *Result {
 			for i := range c.Reqs {
 				qgates[i].release()
 				sgates[i].release()
+				wgates[i].release()
 			}
 			w.Quiesce()
 			moved := false
